@@ -94,6 +94,12 @@ CHECKS = {
     text="Generated traits with attributes/docs, unsafe, generics, supertraits, where clauses, default bodies, associated types and async methods crossed with all trait-mode option sets; field-by-field comparison in both directions (nothing lost, nothing but owned mock attributes added). The two differences recorded as open known findings are tolerated exactly and probed separately.",
     note="syn's parse/print round trip is trusted for both sides of the diff; what `owned mock attribute` means is fixed syntactically (path ends in unimock/automock, possibly inside cfg_attr(test, ..)) and excludes attributes the user wrote.",
     design="§2 C09"),
+ "C19": dict(
+    technique="metamorphic property-based testing of compiled clients: the same usage unit in a benign module and in a module with generated shadowing items / hostile trait names must compile and compute the same value; no_std crate build",
+    engine="E2",
+    text="13 usage units covering all four input modes and every delegation kind are invoked by absolute path in modules without imports; the hostile twin additionally defines a generated subset of 22 local items (structs, traits, modules) named like everything the macro refers to, and may name the generated trait Send/Sync/Future/Impl/AsRef/Sized. It must compile and compute the same value as the benign twin; compile failures are judged against the shadow-free twin. One #![no_std] library crate contains every unit. 300 programs quick / 5000 thorough.",
+    note="User code in the units uses absolute paths only, so a failure is the macro's reference; `Box` is not shadowed next to async_trait (that macro's own bare reference). The reserved identifiers EntraitT/__impl are not shadowed.",
+    design="§2 C19"),
  "C20": dict(
     technique="property-based testing over histories: one generated corpus expanded under permutations, repetitions, threads and perturbed child processes; oracle = per-key equality of outputs",
     engine="E1",
